@@ -53,7 +53,10 @@ var durVals = []time.Duration{cache.DefaultExpiration, 10 * time.Millisecond, ca
 var durNames = []string{"default", "10ms", "none", "1h", "maxDuration"}
 
 // configurations
-var defExps = []time.Duration{cache.NoExpiration, 0, 50 * time.Millisecond}
+// (the last two - other non-positive defaults, which mean "never expires" as well - are drawn by the random generator only)
+var defExps = []time.Duration{cache.NoExpiration, 0, 50 * time.Millisecond, -time.Second, time.Duration(math.MinInt64)}
+
+const nEnumDefExps = 3
 var cleanups = []time.Duration{0, 20 * time.Millisecond}
 
 // advance targets, interpreted at execution time
@@ -163,7 +166,7 @@ func enumLen(thorough bool) int {
 }
 
 func enum(s pbt.Src, thorough bool) Case {
-	c := Case{DefExp: s.Intn(len(defExps)), Cleanup: s.Intn(len(cleanups))}
+	c := Case{DefExp: s.Intn(nEnumDefExps), Cleanup: s.Intn(len(cleanups))}
 	c.Ops = pbt.Seq(s, 0, enumLen(thorough), enumOp)
 	return c
 }
@@ -221,7 +224,7 @@ func gen(s pbt.Src, thorough bool) Case {
 }
 
 func outOfEnum(c Case, thorough bool) bool {
-	if len(c.Ops) > enumLen(thorough) {
+	if len(c.Ops) > enumLen(thorough) || c.DefExp >= nEnumDefExps {
 		return true
 	}
 	for _, o := range c.Ops {
@@ -832,7 +835,7 @@ func TestProp(t *testing.T) {
 	pbt.Run(t, "C08",
 		&pbt.Check[Case]{
 			Name: "cache",
-			Rule: "call sequences on cache.New[string,string](default in {-1,0,50ms}, cleanup in {0,20ms}) inside a synctest bubble (virtual clock) against a map-with-deadlines model; " +
+			Rule: "call sequences on cache.New[string,string](default in {-1,0,50ms}; random cases also -1s and the most negative Duration, which mean never-expires too; cleanup in {0,20ms}) inside a synctest bubble (virtual clock) against a map-with-deadlines model; " +
 				"operations Set/SetDefault/Update (fresh or rejected empty value; duration default/10ms/none/1h, random cases also the largest Duration, whose deadline is not representable), Get, Delete, Flush, DeleteExpired, Count, List, MapToCache, IsExpired and " +
 				"Advance to {next deadline-1ns, deadline, deadline+1ns, next cleanup tick, 1ms, 200ms}; Count/List are checked after every step, every key is read at the end and after a final 200ms. " +
 				"Enumerated: every sequence up to length 3 (thorough 4) over a 50-operation alphabet (2 keys) for all 6 configurations; random: up to 30 (60) operations over 3 keys. " +
